@@ -196,6 +196,51 @@ func runC06(ctx *h.Ctx) int {
 			prog.Items = append([]spec.Item{&spec.Const{ID: prog.NewID(), Name: "Hello", Value: []string{"1"}}, &spec.Const{ID: prog.NewID(), Name: "x", Value: []string{"VAR_TEMP_2"}}}, prog.Items...)
 			k.Count("files_with_constants_spelled_like_texts", 1)
 		}
+		if k.R.IntN(4) == 0 {
+			// text and movement STATEMENTS with exactly the content (and string type) of an inline value, before and
+			// after the scripts: they are data of their own and never stand in for the hoisted label
+			var texts []*spec.TextVal
+			var moves [][]*spec.ListElem
+			for _, sc := range scriptsOf(prog) {
+				allCmds(sc.Body, func(c *spec.Cmd) {
+					for _, a := range c.Args {
+						if a.Text != nil && a.Text.Format == nil {
+							texts = append(texts, a.Text)
+						}
+						if a.Moves != nil {
+							moves = append(moves, a.Moves)
+						}
+					}
+				})
+			}
+			var extra []spec.Item
+			if len(texts) > 0 {
+				t := texts[k.R.IntN(len(texts))]
+				extra = append(extra, &spec.TextItem{ID: prog.NewID(), Name: g.Name("TxtSame"), Scope: k.R.IntN(3), Val: &spec.TextVal{ID: prog.NewID(), Type: t.Type, Parts: append([]string{}, t.Parts...)}})
+			}
+			if len(moves) > 0 {
+				src := moves[k.R.IntN(len(moves))]
+				plain := true
+				var cp []*spec.ListElem
+				for _, e := range src {
+					if e.PS != nil {
+						plain = false
+					}
+					cp = append(cp, &spec.ListElem{ID: prog.NewID(), Name: e.Name, Mult: e.Mult, Comma: e.Comma})
+				}
+				if plain {
+					extra = append(extra, &spec.MovementItem{ID: prog.NewID(), Name: g.Name("MovSame"), Steps: cp})
+				}
+			}
+			if len(extra) > 0 {
+				if k.R.IntN(3) != 0 {
+					prog.Items = append(extra, prog.Items...)
+				} else {
+					prog.Items = append(prog.Items, extra...)
+				}
+				k.Count("files_with_statements_equal_to_inline_values", 1)
+			}
+		}
 		rp, rerr := spec.Resolve(prog, prog.Switches)
 		pr := layoutOf(k, prog, 0.15)
 		k.SetSource(pr.Src)
@@ -206,9 +251,11 @@ func runC06(ctx *h.Ctx) int {
 				k.Count("rejected", 1)
 				k.Count("rejected: "+rejectFamily(res.ErrString()), 1)
 				debugReject(pr.Src, res.ErrString())
+				rejectedValid(k, prog, res, true)
 				return
 			}
 			if rerr != nil {
+				acceptedUnmatched(k)
 				return
 			}
 			k.Count("accepted", 1)
@@ -310,6 +357,7 @@ func runC06(ctx *h.Ctx) int {
 		if !res.OK() {
 			k.Count("rejected", 1)
 			k.Count("rejected: "+rejectFamily(res.ErrString()), 1)
+			rejectedValid(k, prog, res, true)
 			return
 		}
 		k.Count("accepted", 1)
@@ -365,6 +413,10 @@ func runC06(ctx *h.Ctx) int {
 		if res.Err == nil {
 			k.Violation("clash-accepted", fmt.Sprintf("user-defined %q clashes with a generated label but the program was accepted", what), map[string]interface{}{"output": res.Out})
 			return
+		}
+		if msg := res.ErrString(); !strings.Contains(msg, "duplicate") && !strings.Contains(msg, "no poryswitch case found") {
+			// rejected, but not as a clash: the clash itself went unnoticed
+			k.C.Inconclusive("a file with a label clash on %q is rejected for another reason: %s", what, rejectFamily(msg))
 		}
 		k.Count("clashes_rejected", 1)
 		k.Nontrivial("clash", pick < len(lm.Texts), at)
